@@ -305,6 +305,18 @@ class ParseContext:
       module = '.'.join([source.partial_path(), *inner_names])
 
     original = _inverse_lookup(fn_or_cls)
+    import_source = self._import_source(source, attr_names)
+    if original is not None:
+      # Whatever spelling (or file) registered this very object first: all
+      # spellings keep addressing that one configurable.
+      fn_or_cls_name, module = original.name, original.module
+      import_source = original.import_source or import_source
+    elif inspect.isfunction(fn_or_cls) and inspect.isclass(path_attrs[-1]):  # pytype: disable=not-supported-yet
+      parent = _inverse_lookup(path_attrs[-1])
+      if parent is not None:
+        # A method of a class registered under another spelling: register it
+        # where that class will look for it.
+        module = parent.selector
     _make_configurable(
         fn_or_cls,
         name=fn_or_cls_name,
@@ -312,11 +324,10 @@ class ParseContext:
         # A re-registration must not make non-configurable parameters bindable.
         allowlist=original.allowlist if original else None,
         denylist=original.denylist if original else None,
-        import_source=self._import_source(source, attr_names),
+        import_source=import_source,
         avoid_class_mutation=True)
-    if original is not None:  # We've re-registered something...
-      for reference in iterate_references(_CONFIG, to=original.wrapper):
-        reference.initialize()
+    # (Existing references follow the re-registration by themselves, see
+    # `ConfigurableReference._refresh`.)
 
     if inspect.isfunction(fn_or_cls) and inspect.isclass(path_attrs[-1]):  # pytype: disable=not-supported-yet
       self._register(attr_names[:-1], attr_values[:-1])
@@ -724,12 +735,28 @@ class ConfigurableReference:
     self._scoped_configurable_fn = _decorate_with_scope(
         self._configurable, scope_components=self._scopes)
 
+  def _refresh(self):
+    """Follows a re-registration of the referenced function or class.
+
+    With dynamic registration a class is registered again when one of its
+    methods is configured: every reference to it, whichever file (or part of a
+    statement) created it, has to use the current registration.
+    """
+    current = _REGISTRY._selector_map.get(self._configurable.selector)  # pylint: disable=protected-access
+    if (current is not None and current is not self._configurable and
+        current.wrapped is self._configurable.wrapped):
+      self._configurable = current
+      self._scoped_configurable_fn = _decorate_with_scope(
+          current, scope_components=self._scopes)
+
   @property
   def configurable(self):
+    self._refresh()
     return self._configurable
 
   @property
   def scoped_configurable_fn(self):
+    self._refresh()
     return self._scoped_configurable_fn
 
   @property
@@ -746,6 +773,7 @@ class ConfigurableReference:
 
   @property
   def config_key(self):
+    self._refresh()
     return ('/'.join(self._scopes), self._configurable.selector)
 
   @property
@@ -804,6 +832,7 @@ class ConfigurableReference:
       (maybe wrapped to be called in the proper scope). When `self._evaluate` is
       `True`, returns the output of calling the underlying configurable.
     """
+    self._refresh()
     if self._evaluate:
       return self._scoped_configurable_fn()
     return self._scoped_configurable_fn
